@@ -7,6 +7,7 @@ import (
 	"fmt"
 	"net"
 	"strings"
+	"time"
 
 	"verif/harness/vlib"
 )
@@ -164,6 +165,22 @@ func SizeClass(n int) string {
 	default:
 		return ">=8192"
 	}
+}
+
+// DeadlineState replays the deadline events of a conn: SetDeadline sets both halves,
+// SetReadDeadline / SetWriteDeadline one. It returns the armed offsets (0 = cleared).
+func DeadlineState(ev []vlib.ConnEvent) (read, write time.Duration) {
+	for _, e := range ev {
+		switch e.Kind {
+		case "deadline":
+			read, write = e.Off, e.Off
+		case "rdeadline":
+			read = e.Off
+		case "wdeadline":
+			write = e.Off
+		}
+	}
+	return
 }
 
 // Fields splits a driver reply.
